@@ -167,7 +167,8 @@ class SqrtLasso(LinearModel, RegressorMixin):
             Coefficients along the path.
         """
         self.solver_ = ProxNewton(
-            tol=self.tol, max_iter=self.max_iter, verbose=self.verbose,
+            p0=self.p0, tol=self.tol, max_iter=self.max_iter,
+            max_pn_iter=self.max_pn_iter, verbose=self.verbose,
             fit_intercept=False)
         # build path
         if alphas is None:
